@@ -1,6 +1,338 @@
 package c06
 
-import "verif.local/mc/report"
+import (
+	"context"
+	"fmt"
+	"slices"
+	"strings"
+	"time"
 
-// endToEnd registers the end-to-end rescaling parts (real operators): added below.
-func endToEnd(k *report.Check) {}
+	"reduction.dev/reduction-protocol/handlerpb"
+	"reduction.dev/reduction/dkv"
+	"reduction.dev/reduction/dkv/recovery"
+	"reduction.dev/reduction/partitioning"
+	"reduction.dev/reduction/proto"
+	"reduction.dev/reduction/workers/operator"
+	"verif.local/mc/harness/dkvh"
+	"verif.local/mc/mc"
+	"verif.local/mc/report"
+	"verif.local/mc/shim"
+)
+
+// End-to-end store tier: M old operators, each a real dkv.DB (tiny memtable, so that state is
+// spread over tables, memtables and the WAL) under a real KeyedStateStore, apply an enumerated
+// history of puts and deletes to the keys of their key groups and checkpoint. The job's side is
+// the real AssignRanges over the checkpoints in an enumerated recorded order; N new operators
+// open real databases from the handles they are assigned, with the real OperatorPartition
+// ownership, and must see exactly the state of their own key groups; further enumerated
+// mutations at the new owners must take effect, also after flush and compaction.
+
+const groups = 4
+
+// subjectOf[kg] is a subject key that falls into key group kg.
+var subjectOf = func() []string {
+	ks := partitioning.NewKeySpace(groups, 1)
+	out := make([]string, groups)
+	found := 0
+	for i := 0; found < groups && i < 1000; i++ {
+		s := fmt.Sprintf("s%d", i)
+		kg := int(ks.KeyGroup([]byte(s)))
+		if out[kg] == "" {
+			out[kg] = s
+			found++
+		}
+	}
+	return out
+}()
+
+type eparams struct {
+	depth, post int
+	scales      [][2]int
+	hot         []int // key groups whose subject the histories touch
+}
+
+func endToEnd(k *report.Check) {
+	scales := [][2]int{{2, 1}, {1, 2}, {3, 2}}
+	if k.Thorough() {
+		scales = [][2]int{{2, 1}, {1, 2}, {3, 2}, {2, 3}, {3, 1}, {1, 3}, {2, 2}, {4, 3}, {3, 4}}
+	}
+	p := eparams{depth: k.Pick(3, 4), post: k.Pick(1, 2), scales: scales, hot: [][]int{{1, 2}, {0, 1, 2, 3}}[k.Pick(0, 1)]}
+	k.ExploreProc(fmt.Sprintf("stores/d=%d+%d", p.depth, p.post), mc.Config{}, p, e2eBody)
+}
+
+// always answers that the table is still needed: deleting shared tables is C09's subject
+type needyNeighbour struct{ proto.UnimplementedOperator }
+
+func (*needyNeighbour) NeedsTable(ctx context.Context, uri string) (bool, error) { return true, nil }
+
+type store struct {
+	db *dkv.DB
+	st *operator.KeyedStateStore
+	ts *operator.TimerStore
+	r  partitioning.KeyGroupRange
+}
+
+func newStore(db *dkv.DB, count int, r partitioning.KeyGroupRange) *store {
+	ks := partitioning.NewKeySpace(groups, count)
+	return &store{db: db, st: operator.NewKeyedStateStore(db, ks), ts: operator.NewTimerStore(db, ks, r, 1<<30), r: r}
+}
+
+var timerAt = time.Unix(100, 0).UTC()
+
+func render(c *mc.Ctx, who, subject string, s *store) string {
+	st, err := s.st.GetState([]byte(subject))
+	if err != nil {
+		c.Failf("%s: GetState(%q): %v", who, subject, err)
+	}
+	var out []string
+	for _, ns := range st {
+		for _, e := range ns.Entries {
+			out = append(out, fmt.Sprintf("%s/%s=%s", ns.Namespace, e.Key, e.Value))
+		}
+	}
+	slices.Sort(out)
+	return strings.Join(out, ",")
+}
+
+var execSeq int
+
+func e2eBody(c *mc.Ctx) {
+	p := c.Param.(eparams)
+	sc := p.scales[c.Choose(len(p.scales))]
+	m, n := sc[0], sc[1]
+	ps := perms(m)
+	perm := ps[c.Choose(len(ps))]
+	o := dkvh.Options{Mem: 60, Table: 80, L0: 2, Smallest: 4500, Ampl: 50}
+	dkvh.Tune(o)
+	defer shim.SetLocal(nil)
+	root := dkvh.NewFS()
+	execSeq++
+	base := fmt.Sprintf("/x%d", execSeq)
+	c.Op("[%d -> %d operators, %d key groups, checkpoints recorded in order %v]", m, n, groups, perm)
+
+	oldRanges := partitioning.NewKeySpace(groups, m).KeyGroupRanges()
+	olds := make([]*store, m)
+	for i := range olds {
+		db := dkv.Open(o.DBOptions(root.WithWorkingDir(fmt.Sprintf("%s/old%d", base, i))), nil)
+		olds[i] = newStore(db, m, oldRanges[i])
+	}
+	ownerOf := func(ss []*store, kg int) *store {
+		for _, s := range ss {
+			if s.r.IncludesKeyGroup(partitioning.KeyGroup(kg)) {
+				return s
+			}
+		}
+		panic("mc: harness: key group without owner")
+	}
+	shadow := map[string]string{} // subject -> value of entry n/k ("" = absent)
+	rewrites := 0
+	written := map[string]int{}
+	timers := map[string]bool{} // subjects with a timer set (all at the same time)
+	mutate := func(ss []*store, step, op int) {
+		nh := len(p.hot)
+		if op >= 2*nh {
+			op -= 2 * nh
+			if op < nh { // set the timer of a subject
+				sub := subjectOf[p.hot[op]]
+				c.Op("SetTimer(%s)", sub)
+				s := ownerOf(ss, p.hot[op])
+				s.ts.Put([]byte(sub), timerAt)
+				timers[sub] = true
+				written["timer:"+sub]++
+				if written["timer:"+sub] > 1 {
+					rewrites++
+				}
+				if err := s.db.WaitOnTasks(); err != nil {
+					c.Failf("background task failed: %v", err)
+				}
+				return
+			}
+			i := (op - nh) % len(ss) // the earliest timer of an operator fires
+			s := ss[i]
+			t, ok := s.ts.Pop()
+			if !ok {
+				c.Op("FireTimer(operator %d): none", i)
+				return
+			}
+			c.Op("FireTimer(operator %d): %s", i, t.Key)
+			if !timers[string(t.Key)] {
+				c.FailSig("timer-unknown", "operator %d fires a timer of %s, which has none set", i, t.Key)
+			}
+			if !s.r.IncludesKeyGroup(partitioning.NewKeySpace(groups, 1).KeyGroup(t.Key)) {
+				c.FailSig("rescale-foreign-timer", "operator %d %v fires a timer of key %s, which belongs to another operator", i, s.r, t.Key)
+			}
+			delete(timers, string(t.Key))
+			rewrites++
+			if err := s.db.WaitOnTasks(); err != nil {
+				c.Failf("background task failed: %v", err)
+			}
+			return
+		}
+		kg, del := p.hot[op/2], op%2 == 1
+		sub := subjectOf[kg]
+		mut := &handlerpb.StateMutation{}
+		if del {
+			c.Op("Delete(%s)", sub)
+			mut.Mutation = &handlerpb.StateMutation_Delete{Delete: &handlerpb.DeleteMutation{Key: []byte("k")}}
+			delete(shadow, sub)
+		} else {
+			v := fmt.Sprintf("v%d", step)
+			c.Op("Put(%s=%s)", sub, v)
+			mut.Mutation = &handlerpb.StateMutation_Put{Put: &handlerpb.PutMutation{Key: []byte("k"), Value: []byte(v)}}
+			shadow[sub] = v
+		}
+		written[sub]++
+		if written[sub] > 1 {
+			rewrites++
+		}
+		s := ownerOf(ss, kg)
+		if err := s.st.ApplyMutations([]byte(sub), []*handlerpb.StateMutationNamespace{{Namespace: "n", Mutations: []*handlerpb.StateMutation{mut}}}); err != nil {
+			c.Failf("ApplyMutations: %v", err)
+		}
+		if err := s.db.WaitOnTasks(); err != nil {
+			c.Failf("background task failed: %v", err)
+		}
+	}
+	want := func(sub string) string {
+		if v, ok := shadow[sub]; ok {
+			return "n/k=" + v
+		}
+		return ""
+	}
+	nOps := 3*len(p.hot) + 2
+	for step := 0; step < p.depth; step++ {
+		op := c.Choose(1 + nOps)
+		if op == 0 {
+			break
+		}
+		mutate(olds, step, op-1)
+	}
+	// checkpoint every old operator; the job records them in the enumerated order
+	handles := make([]recovery.CheckpointHandle, m)
+	for i, s := range olds {
+		h, err := s.db.Checkpoint(1)()
+		if err != nil {
+			c.Failf("checkpoint of old operator %d: %v", i, err)
+		}
+		handles[i] = h
+	}
+	from := make([]partitioning.KeyGroupRange, m)
+	recorded := make([]recovery.CheckpointHandle, m)
+	for i, j := range perm {
+		from[i], recorded[i] = oldRanges[j], handles[j]
+	}
+	newRanges := partitioning.NewKeySpace(groups, n).KeyGroupRanges()
+	assigned := partitioning.AssignRanges(newRanges, from)
+	news := make([]*store, n)
+	for i := range news {
+		var hs []recovery.CheckpointHandle
+		for _, j := range assigned[i] {
+			hs = append(hs, recorded[j])
+		}
+		var nr []partitioning.KeyGroupRange
+		var no []proto.Operator
+		for j := range news {
+			if j != i {
+				nr = append(nr, newRanges[j])
+				no = append(no, &needyNeighbour{})
+			}
+		}
+		opts := o.DBOptions(root.WithWorkingDir(fmt.Sprintf("%s/new%d", base, i)))
+		opts.DataOwnership = operator.VerifNewOperatorPartition(newRanges[i], nr, no)
+		db := dkv.Open(opts, hs)
+		if err := db.WaitOnTasks(); err != nil {
+			c.Failf("background task of new operator %d failed: %v", i, err)
+		}
+		news[i] = newStore(db, n, newRanges[i])
+	}
+	check := func(when string) {
+		for kg, sub := range subjectOf {
+			owner := ownerOf(news, kg)
+			for i, s := range news {
+				got := render(c, fmt.Sprintf("%s: new operator %d", when, i), sub, s)
+				if s == owner {
+					if got != want(sub) {
+						sig := "rescale-state-lost"
+						if got != "" {
+							sig = "rescale-state-stale"
+						}
+						c.FailSig(sig, "%s: new operator %d %v owns key %s (key group %d) and sees [%s], the handler's mutations leave [%s]", when, i, s.r, sub, kg, got, want(sub))
+					}
+				}
+				// a non-owner is never asked for the key (C05); tables are shared between the new
+				// operators by design, so what GetState would return there is not observable
+			}
+		}
+	}
+	check("after the restore")
+	for step := 0; step < p.post; step++ {
+		op := c.Choose(1 + nOps)
+		if op == 0 {
+			break
+		}
+		mutate(news, p.depth+step, op-1)
+		check("after an update following the restore")
+	}
+	// fill the memtables so that they are flushed and compacted with the restored tables
+	for round := 0; round < 3; round++ {
+		for kg := range subjectOf {
+			s := ownerOf(news, kg)
+			filler := &handlerpb.StateMutation{Mutation: &handlerpb.StateMutation_Put{Put: &handlerpb.PutMutation{Key: []byte(fmt.Sprintf("f%d", round)), Value: []byte("x")}}}
+			if err := s.st.ApplyMutations([]byte(subjectOf[kg]), []*handlerpb.StateMutationNamespace{{Namespace: "z", Mutations: []*handlerpb.StateMutation{filler}}}); err != nil {
+				c.Failf("ApplyMutations: %v", err)
+			}
+			if err := s.db.WaitOnTasks(); err != nil {
+				c.Failf("background task failed: %v", err)
+			}
+		}
+	}
+	c.Op("filler entries in namespace z, flush and compaction")
+	checkFill := func() {
+		for kg, sub := range subjectOf {
+			got := render(c, "after flush and compaction", sub, ownerOf(news, kg))
+			w := want(sub)
+			fill := "z/f0=x,z/f1=x,z/f2=x"
+			if w != "" {
+				w += ","
+			}
+			if got != w+fill {
+				c.FailSig("rescale-state-stale-after-compaction", "after flush and compaction: the owner of key %s sees [%s], the handler's mutations leave [%s]", sub, got, w+fill)
+			}
+		}
+	}
+	checkFill()
+	// drain the timers of every new operator: exactly the timers of its own key groups
+	for i, s := range news {
+		var got, wantT []string
+		for {
+			t, ok := s.ts.Pop()
+			if !ok {
+				break
+			}
+			got = append(got, string(t.Key))
+			if len(got) > 2*groups {
+				break
+			}
+		}
+		for kg, sub := range subjectOf {
+			if timers[sub] && s.r.IncludesKeyGroup(partitioning.KeyGroup(kg)) {
+				wantT = append(wantT, sub)
+			}
+		}
+		slices.Sort(got)
+		slices.Sort(wantT)
+		if fmt.Sprint(got) != fmt.Sprint(wantT) {
+			sig := "rescale-timers-lost"
+			if len(got) >= len(wantT) {
+				sig = "rescale-timers-stale-or-foreign"
+			}
+			c.FailSig(sig, "new operator %d %v holds the timers of %v, the timers set and not fired for its key groups are %v", i, s.r, got, wantT)
+		}
+	}
+	for _, s := range append(slices.Clone(olds), news...) {
+		s.db.WaitOnTasks()
+	}
+	if rewrites > 0 && m != n {
+		c.Nontrivial(strings.Join(c.Ops(), " "))
+	}
+}
